@@ -4,7 +4,14 @@
  *
  * Each line of programs.txt is one program (a behaviour of spec/DTD/Seq.tla printed by TLC, turned into text by the
  * check):
- *     nd=<ND> fl=<A|S:d,d,..> w=<window> th=<threshold> ins=<0|1> sp=<min_us>:<max_us> nz=<0|1> id=<min_us>:<max_us> ; <rank> <nacc> d m d m .. ; ...
+ *     nd=<ND> fl=<A|S:d,d,..> w=<window> th=<threshold> ins=<0|1> sp=<min_us>:<max_us> nz=<0|1> id=<min_us>:<max_us> ar=<0|1> ; <rank> <nacc> d m d m .. ; ...
+ * ar=1 (two arena datatypes): the tiles of this program are WIDE ints wide and every access names the WIDE-int arena
+ * datatype, which was attached SECOND (id 1; the one-int datatype attached first keeps id 0 and is smaller).  The
+ * logical value v of a tile is stored as element i = (v + i * ESTEP) mod PMOD; bodies write every element, log the
+ * value decoded from element 0 in "reads" and, in "rt", the value decoded from the first element that disagrees with
+ * element 0 (the same value when the tile is consistent); Owner events carry "vs" = the values decoded from every
+ * element: a partially copied tile shows as two different values.  The second datatype is attached when the first
+ * ar=1 program is met (every rank reads the same file): without such a program the driver has one datatype, id 0.
  * id: the inserting thread pauses that long before each insertion (insertion concurrent with completions).
  * nz=P > 0 (noise, P percent of the gate operations are delayed by 100-500 us): the yield-point hook of the PARSEC_VERIF build (called before every parsec_atomic_* operation) delays,
  * pseudo-randomly, the operations on the reader counters of the tiles' data copies (DTD's reader / writer gate).
@@ -35,10 +42,12 @@
 #define MAXA 4
 #define MAXD 16
 #define PMOD 1000003
+#define WIDE 4
+#define ESTEP 7919
 
 typedef struct { int rank, nacc, d[MAXA], m[MAXA]; } ptask_t;
 typedef struct {
-    int nd, nt, window, threshold, ins, spmin, spmax, noise, idmin, idmax;
+    int nd, nt, window, threshold, ins, spmin, spmax, noise, idmin, idmax, wide;
     int flmode;               /* 'A' flush_all, 'S' parsec_dtd_data_flush of the listed data, then flush_all */
     int nfl, fl[MAXD];
     ptask_t t[MAXT + 1];      /* 1-based */
@@ -48,6 +57,11 @@ static prog_t cur;
 static long cur_index;
 static int world = 1, myrank = 0;
 static int TILE_FULL;
+static int TILE_WIDE = -1;    /* id of the WIDE-int arena datatype (attached second), -1 = not attached */
+static int tile_ints(void) { return cur.wide ? WIDE : 1; }
+static int tile_id(void) { return cur.wide ? TILE_WIDE : TILE_FULL; }
+static int enc(int v, int i) { return (int)(((long long)v + (long long)i * ESTEP) % PMOD); }
+static int dec(int x, int i) { return (int)((((long long)x - (long long)i * ESTEP) % PMOD + PMOD) % PMOD); }
 static parsec_context_t *parsec;
 static parsec_data_collection_t *A;
 static volatile int inserter_done;
@@ -103,9 +117,10 @@ static int generic_body(parsec_execution_stream_t *es, parsec_task_t *this_task,
     int rk, tid;
     int *p[MAXA] = { NULL, NULL, NULL, NULL };
     long long h = 17;
-    int rv[MAXD + 1], nv[MAXD + 1];
-    char buf[400];
-    int n, first;
+    int rv[MAXD + 1], nv[MAXD + 1], rt[MAXD + 1];
+    char buf[400], buf2[400];
+    int n, n2, first;
+    const int K = tile_ints();
     (void)es; (void)sig;
 
     parsec_dtd_unpack_args(this_task, &rk, &tid);
@@ -117,17 +132,24 @@ static int generic_body(parsec_execution_stream_t *es, parsec_task_t *this_task,
     default: parsec_dtd_unpack_args(this_task, &rk, &tid, &p[0], &p[1], &p[2], &p[3]); break;
     }
     /* values read: through the first reading parameter of each datum, increasing d */
-    n = 0; first = 1; buf[0] = '\0';
+    n = 0; n2 = 0; first = 1; buf[0] = '\0'; buf2[0] = '\0';
     for( int d = 1; d <= cur.nd; d++ ) {
         if( !reads_d(t, d) ) continue;
         for( int i = 0; i < t->nacc; i++ ) {
-            if( t->d[i] == d && (t->m[i] & 1) ) { rv[d] = *(volatile int *)p[i]; break; }
+            if( t->d[i] == d && (t->m[i] & 1) ) {
+                volatile int *q = (volatile int *)p[i];
+                rv[d] = rt[d] = dec(q[0], 0);
+                for( int e = 1; e < K; e++ ) if( dec(q[e], e) != rv[d] ) { rt[d] = dec(q[e], e); break; }
+                break;
+            }
         }
         h = (h * 31 + rv[d]) % PMOD;
         n += snprintf(buf + n, sizeof(buf) - n, "%s[%d,%d]", first ? "" : ",", d, rv[d]);
+        n2 += snprintf(buf2 + n2, sizeof(buf2) - n2, "%s[%d,%d]", first ? "" : ",", d, rt[d]);
         first = 0;
     }
-    vt_ev("\"e\":\"Start\",\"t\":%d,\"rk\":%d,\"reads\":[%s]", tid, myrank, buf);
+    if( cur.wide ) vt_ev("\"e\":\"Start\",\"t\":%d,\"rk\":%d,\"reads\":[%s],\"rt\":[%s]", tid, myrank, buf, buf2);
+    else vt_ev("\"e\":\"Start\",\"t\":%d,\"rk\":%d,\"reads\":[%s]", tid, myrank, buf);
 
     spin_us(cur.spmin + (int)(((unsigned)tid * 2654435761u + (unsigned)cur_index * 40503u) % (unsigned)(cur.spmax - cur.spmin + 1)));
 
@@ -137,7 +159,7 @@ static int generic_body(parsec_execution_stream_t *es, parsec_task_t *this_task,
         nv[d] = (int)((h * 31 + (long long)tid * 131 + d) % PMOD);
         /* written through every writing parameter of the datum (they designate the same logical datum) */
         for( int i = 0; i < t->nacc; i++ ) {
-            if( t->d[i] == d && (t->m[i] & 2) ) *(volatile int *)p[i] = nv[d];
+            if( t->d[i] == d && (t->m[i] & 2) ) for( int e = 0; e < K; e++ ) ((volatile int *)p[i])[e] = enc(nv[d], e);
         }
         n += snprintf(buf + n, sizeof(buf) - n, "%s[%d,%d]", first ? "" : ",", d, nv[d]);
         first = 0;
@@ -165,7 +187,7 @@ static int sig_of(const ptask_t *t)
     return off[t->nacc] + s;
 }
 
-static int op_of(int m) { return (1 == m ? PARSEC_INPUT : (2 == m ? PARSEC_OUTPUT : PARSEC_INOUT)) | TILE_FULL; }
+static int op_of(int m) { return (1 == m ? PARSEC_INPUT : (2 == m ? PARSEC_OUTPUT : PARSEC_INOUT)) | tile_id(); }
 #define TILE(i) PASSED_BY_REF, PARSEC_DTD_TILE_OF_KEY(A, A->data_key(A, t->d[i] - 1, 0)), op_of(t->m[i])
 
 static void insert_one(parsec_taskpool_t *tp, int tid)
@@ -220,6 +242,7 @@ static int parse_prog(char *line, prog_t *p)
             else if( !strncmp(tok, "sp=", 3) ) sscanf(tok + 3, "%d:%d", &p->spmin, &p->spmax);
             else if( !strncmp(tok, "nz=", 3) ) p->noise = atoi(tok + 3);
             else if( !strncmp(tok, "id=", 3) ) sscanf(tok + 3, "%d:%d", &p->idmin, &p->idmax);
+            else if( !strncmp(tok, "ar=", 3) ) p->wide = (0 != atoi(tok + 3));
         }
     }
     p->flmode = fl[0];
@@ -262,15 +285,23 @@ static void run_one(void)
     parsec_matrix_block_cyclic_t *m = (parsec_matrix_block_cyclic_t *)malloc(sizeof(parsec_matrix_block_cyclic_t));
     int used[MAXD + 1], rc;
     parsec_taskpool_t *tp;
+    const int K = tile_ints();
 
+    if( cur.wide && TILE_WIDE < 0 ) {     /* second arena datatype of the context: id 1, larger than the one under id 0 */
+        parsec_arena_datatype_t *wadt = parsec_matrix_adt_new_rect(parsec_datatype_int32_t, WIDE, 1, WIDE);
+        rc = parsec_dtd_attach_arena_datatype(parsec, wadt, &TILE_WIDE);
+        PARSEC_CHECK_ERROR(rc, "parsec_dtd_attach_arena_datatype");
+        if( TILE_WIDE == TILE_FULL || 0 == TILE_WIDE ) { fprintf(stderr, "unexpected arena datatype id %d\n", TILE_WIDE); exit(3); }
+    }
     parsec_matrix_block_cyclic_init(m, PARSEC_MATRIX_INTEGER, PARSEC_MATRIX_TILE, myrank,
-                                    1, 1, cur.nd, 1, 0, 0, cur.nd, 1, world, 1, 1, 1, 0, 0);
+                                    K, 1, cur.nd * K, 1, 0, 0, cur.nd * K, 1, world, 1, 1, 1, 0, 0);
     m->mat = parsec_data_allocate(((size_t)m->super.nb_local_tiles + 1) * (size_t)m->super.bsiz *
                                   (size_t)parsec_datadist_getsizeoftype(m->super.mtype));
     A = (parsec_data_collection_t *)m;
     parsec_data_collection_set_key(A, "A");
     for( int d = 1; d <= cur.nd; d++ )
-        if( (int)A->rank_of_key(A, A->data_key(A, d - 1, 0)) == myrank ) *owner_ptr(d) = d * 1009;
+        if( (int)A->rank_of_key(A, A->data_key(A, d - 1, 0)) == myrank )
+            for( int e = 0; e < K; e++ ) owner_ptr(d)[e] = enc(d * 1009, e);
     parsec_dtd_data_collection_init(A);
     memset((void *)gate_addr, 0, sizeof(gate_addr));
     if( cur.noise ) {
@@ -320,8 +351,11 @@ static void run_one(void)
     PARSEC_CHECK_ERROR(rc, "parsec_taskpool_wait");
     vt_ev("\"e\":\"Wait\"");
     for( int d = 1; d <= cur.nd; d++ ) {
-        if( used[d] && (int)A->rank_of_key(A, A->data_key(A, d - 1, 0)) == myrank )
-            vt_ev("\"e\":\"Owner\",\"d\":%d,\"v\":%d,\"rk\":%d", d, *owner_ptr(d), myrank);
+        if( used[d] && (int)A->rank_of_key(A, A->data_key(A, d - 1, 0)) == myrank ) {
+            char vb[200]; int n = 0;
+            for( int e = 0; e < K; e++ ) n += snprintf(vb + n, sizeof(vb) - n, "%s%d", e ? "," : "", dec(owner_ptr(d)[e], e));
+            vt_ev("\"e\":\"Owner\",\"d\":%d,\"v\":%d,\"rk\":%d,\"vs\":[%s]", d, dec(owner_ptr(d)[0], 0), myrank, vb);
+        }
     }
     parsec_taskpool_free(tp);
     rc = parsec_context_wait(parsec);
@@ -376,6 +410,7 @@ int main(int argc, char **argv)
     }
     if( noise_delays ) fprintf(stderr, "noise: %ld delayed gate operations\n", noise_delays);
     parsec_dtd_free_arena_datatype(parsec, TILE_FULL);
+    if( TILE_WIDE >= 0 ) parsec_dtd_free_arena_datatype(parsec, TILE_WIDE);
     parsec_fini(&parsec);
     vt_close();
     MPI_Finalize();
